@@ -9,6 +9,7 @@
      (eval tag unk hook expr datum retable)                      -> T | F | E:<class> | X | P
      (evaluate src opts datum retable)                           -> same, or NOCREATE
      (execute src opts datum retable)                            -> NOCREATE | ERR | PANIC | DATA | (slice ty (v..)) | (map ty ((k v)..))
+     (jeval expr json retable)                                   -> T | F | E   (the documented interpreter over JSON documents)
      (dump h:indent lvl expr)                                    -> h:<text>
      (quote h:s) (unquote h:s) (parseint h:s base bits) (parseuint ..) (parsefloat h:s bits) (parsebool h:s)
      (ptrunescape h:s) (validutf8 h:s) (selstring sel)
@@ -184,6 +185,17 @@ let retable tbl =
   let table = List.map (function L [A p; A s; r] -> (cs p, cs s, (match r with A "none" -> None | b -> Some (bool_of b))) | _ -> failwith "re") tbl in
   fun p s -> (try let (_, _, r) = List.find (fun (p', s', _) -> p' = p && s' = s) table in r with Not_found -> None)
 
+(* JSON documents: (JNull) (JBool b) (JNum bits) (JNumber h:text) (JStr h:s) (JArr (j..)) (JObj ((h:k j)..)) *)
+let rec json_of = function
+  | A "JNull" -> JNull
+  | L [A "JBool"; b] -> JBool (bool_of b)
+  | L [A "JNum"; A n] -> JNum (z_of_decimal n)
+  | L [A "JNumber"; A s] -> JNumber (cs s)
+  | L [A "JStr"; A s] -> JStr (cs s)
+  | L [A "JArr"; L l] -> JArr (List.map json_of l)
+  | L [A "JObj"; L kvs] -> JObj (List.map (function L [A k; v] -> (cs k, json_of v) | _ -> failwith "member") kvs)
+  | _ -> failwith "json"
+
 let mopt_of = function
   | L [A "max"; A n] -> MMax (n_of_decimal n)
   | L [A "tag"; A s] -> MTag (cs s)
@@ -217,6 +229,8 @@ let handle line =
        | Some (FErr _) -> "ERR" | Some FPanic -> "PANIC" | Some (FData _) -> "DATA"
        | Some (FSlice (t, l)) -> "(slice " ^ pty t ^ " (" ^ ostr_concat " " (List.map pvl l) ^ "))"
        | Some (FMap (t, l)) -> "(map " ^ pty t ^ " (" ^ ostr_concat " " (List.map (fun (k, v) -> "(" ^ pvl k ^ " " ^ pvl v ^ ")") l) ^ "))")
+  | L [A "jeval"; e; j; L tbl] ->
+      (match model_jeval (retable tbl) (ex e) (json_of j) with Some true -> "T" | Some false -> "F" | None -> "E")
   | L [A "dump"; A ind; A lvl; e] -> hex_of_coq (model_dump (cs ind) (nat_of_int (int_of_string lvl)) (ex e))
   | L [A "quote"; A s] -> hex_of_coq (go_quote (cs s))
   | L [A "unquote"; A s] -> (match unquote (cs s) with Some r -> "ok " ^ hex_of_coq r | None -> "err")
